@@ -12,6 +12,7 @@ CHECKS = {
 }
 CHECKS.update({
     "C04": {
+        "families": ("vaa",),
         "level": "proof",
         "technique": "Lean 4 theorems (layout, injectivity, header independence) over a hand model of serializeBody/Marshal tied by differential run, plus contract offsets re-extracted from Solidity/Ralph source",
         "text": ("serializeBody's big-endian layout, its injectivity on in-range bodies (two messages differing in any field never share a "
@@ -23,6 +24,7 @@ CHECKS.update({
                  "body); checks/c04gen.py extraction; contracts not executed; differential run samples inputs."),
     },
     "C05": {
+        "families": ("vaa",),
         "level": "proof",
         "technique": "Lean 4 round-trip theorems (decode∘encode, encode∘decode) over a hand model of Marshal/Unmarshal, tied by differential execution of the real codec",
         "text": ("unmarshal (marshal v) = some v for every in-domain VAA of any payload length, and unmarshal bs = some v -> marshal v = bs "
@@ -33,6 +35,7 @@ CHECKS.update({
                  "inputs, not proved; bytes.Reader/encoding/binary are exercised, not modelled."),
     },
     "C06": {
+        "families": ("vaa",),
         "level": "proof",
         "technique": "Lean 4 iff-theorem (verifySignatures = true <-> Valid) for lists of any length with ecrecover as an abstract oracle, tied by differential execution of VerifySignatures",
         "text": ("verify_iff proves, for guardian and signature lists of any length and any recover oracle, that the model of VerifySignatures "
